@@ -621,11 +621,11 @@ func (e *tcpEngine) serveFrame(j *tcpJob, length int) bool {
 	return true
 }
 
-// rejectInPlace frames the library-shaped bare-header rejection from the
-// job's TX headroom, allocation-free.
 // rejectExpired answers a query whose budget lapsed while it waited.
 func (j *tcpJob) rejectExpired() { j.rejectInPlace(acceptServerFailure, 0) }
 
+// rejectInPlace frames the library-shaped bare-header rejection from the
+// job's TX headroom, allocation-free.
 func (j *tcpJob) rejectInPlace(verdict acceptVerdict, _ int) {
 	if a, ok := j.engine.handler.(sourceAdmitter); ok && !a.AdmitsSource(j.RemoteAddr()) {
 		// Outside the access list: silent, like every other query from
